@@ -2,9 +2,651 @@ import Cpl.Spec.Torus
 import Cpl.Lemmas.Evolve2D
 import Cpl.Properties.C02
 
-/-! # Invariants of the two 2D memoisers (`memoSweep`, `updateRec2` / `stepRec2`), used by C04 and C09. -/
+/-! # Invariants of the two 2D memoisers (`memoSweep`, `updateRec2` / `stepRec2`), used by C04 and C09.
+
+Low-level helpers live in `Cpl.Memo2D` (to stay clear of `Cpl/Lemmas/Evolve2D.lean`); the invariants
+(`TableOK2`, `CacheOK2`, `CachesOK2`) and the step / loop theorems live in `Cpl`, as in `Memo1D.lean`. -/
 
 namespace Cpl
 open Py
+
+namespace Memo2D
+section Helpers
+variable {σ α : Type}
+
+/-- `g[i][j]` (with defaults outside). -/
+def get2 [Inhabited α] (g : Grid α) (i j : Nat) : α := (g[i]!)[j]!
+
+/-- Cell `(i, j)` lies in block `b`. -/
+def InBlk (b : Blk) (i j : Nat) : Prop := b.r0 ≤ i ∧ i < b.r0 + b.h ∧ b.c0 ≤ j ∧ j < b.c0 + b.w
+
+instance (b : Blk) (i j : Nat) : Decidable (InBlk b i j) := by unfold InBlk; infer_instance
+
+/-! ## Rectangular grids -/
+
+theorem rect_row [Inhabited α] {g : Grid α} {R C : Nat} (hg : Spec.Rect g R C) {i : Nat} (hi : i < R) :
+    (g[i]!).length = C := by
+  have hl : i < g.length := by rw [hg.1]; exact hi
+  rw [getElem!_pos g i hl]
+  exact hg.2 _ (List.getElem_mem hl)
+
+theorem rect_gridCols {g : Grid α} {R C : Nat} (hg : Spec.Rect g R C) (hR : 1 ≤ R) : gridCols g = C := by
+  obtain ⟨h1, h2⟩ := hg
+  cases g with
+  | nil => simp at h1; omega
+  | cons row rest => simp [gridCols]; exact h2 row (by simp)
+
+theorem rect_zeroGrid [Inhabited α] (R C : Nat) : Spec.Rect (zeroGrid R C : Grid α) R C := by
+  refine ⟨by simp [zeroGrid], ?_⟩
+  intro row hrow
+  simp only [zeroGrid, List.mem_replicate] at hrow
+  rw [hrow.2]; simp
+
+theorem rect_pureStep2 [Inhabited α] (f : Nbhd2 α → α) (R C r : Nat) (vn : Bool) (g : Grid α) :
+    Spec.Rect (Spec.pureStep2 f R C r vn g) R C := by
+  refine ⟨by simp [Spec.pureStep2], ?_⟩
+  intro row hrow
+  simp only [Spec.pureStep2, List.mem_map, List.mem_range] at hrow
+  obtain ⟨i, _, rfl⟩ := hrow
+  simp
+
+theorem get2_pureStep2 [Inhabited α] (f : Nbhd2 α → α) (R C r : Nat) (vn : Bool) (g : Grid α)
+    (i j : Nat) (hi : i < R) (hj : j < C) :
+    get2 (Spec.pureStep2 f R C r vn g) i j = f (Spec.nbhd g R C r vn i j) := by
+  simp [get2, Spec.pureStep2, hi, hj]
+
+/-- Extensionality for rectangular grids. -/
+theorem rect_ext [Inhabited α] {g g' : Grid α} {R C : Nat} (hg : Spec.Rect g R C) (hg' : Spec.Rect g' R C)
+    (h : ∀ i j, i < R → j < C → get2 g i j = get2 g' i j) : g = g' := by
+  apply List.ext_getElem
+  · rw [hg.1, hg'.1]
+  · intro i h1 h2
+    have hi : i < R := by rw [← hg.1]; exact h1
+    have r1 := rect_row hg hi
+    have r2 := rect_row hg' hi
+    rw [getElem!_pos g i h1] at r1
+    rw [getElem!_pos g' i h2] at r2
+    apply List.ext_getElem
+    · rw [r1, r2]
+    · intro j j1 j2
+      have hj : j < C := by rw [← r1]; exact j1
+      have := h i j hi hj
+      simp only [get2] at this
+      rw [getElem!_pos g i h1, getElem!_pos g' i h2, getElem!_pos _ j j1, getElem!_pos _ j j2] at this
+      exact this
+
+/-! ## `setCell` -/
+
+theorem rect_setCell {g : Grid α} {R C : Nat} (hg : Spec.Rect g R C) (i j : Nat) (v : α) :
+    Spec.Rect (setCell g i j v) R C := by
+  refine ⟨by simp [setCell, hg.1], ?_⟩
+  intro row hrow
+  obtain ⟨k, hk, rfl⟩ := List.mem_iff_getElem.mp hrow
+  simp only [setCell, List.length_modify] at hk
+  simp only [setCell, List.getElem_modify]
+  split
+  · rw [List.length_set]; exact hg.2 _ (List.getElem_mem hk)
+  · exact hg.2 _ (List.getElem_mem hk)
+
+theorem get2_setCell [Inhabited α] {g : Grid α} {R C : Nat} (hg : Spec.Rect g R C) (i j : Nat) (v : α)
+    (a b : Nat) (ha : a < R) (hb : b < C) :
+    get2 (setCell g i j v) a b = if a = i ∧ b = j then v else get2 g a b := by
+  have hl : a < g.length := by rw [hg.1]; exact ha
+  have hrow : (g[a]).length = C := hg.2 _ (List.getElem_mem hl)
+  have hl' : a < (setCell g i j v).length := by simp [setCell, hl]
+  simp only [get2]
+  rw [getElem!_pos _ a hl', getElem!_pos g a hl]
+  simp only [setCell, List.getElem_modify]
+  by_cases hai : i = a
+  · subst hai
+    simp only [if_true, true_and]
+    by_cases hbj : b = j
+    · subst hbj
+      rw [if_pos rfl, getElem!_pos _ b (by rw [List.length_set, hrow]; exact hb)]
+      simp
+    · rw [if_neg hbj, getElem!_pos _ b (by rw [List.length_set, hrow]; exact hb),
+        getElem!_pos _ b (by rw [hrow]; exact hb)]
+      rw [List.getElem_set_ne (by omega)]
+  · rw [if_neg hai, if_neg (by omega)]
+
+/-! ## `setBlock` / `getBlock` -/
+
+theorem rect_setBlock [Inhabited α] {next : Grid α} {R C : Nat} (hg : Spec.Rect next R C) (b : Blk)
+    (vals : Grid α) : Spec.Rect (setBlock next b vals) R C := by
+  refine ⟨by simp [setBlock, hg.1], ?_⟩
+  intro row hrow
+  simp only [setBlock, List.mem_map, List.mem_range] at hrow
+  obtain ⟨i, hi, rfl⟩ := hrow
+  have hr : (next[i]!).length = C := rect_row hg (by rw [← hg.1]; exact hi)
+  split
+  · rw [List.length_map, List.length_range]; exact hr
+  · exact hr
+
+theorem get2_setBlock [Inhabited α] {next : Grid α} {R C : Nat} (hg : Spec.Rect next R C) (b : Blk)
+    (vals : Grid α) (i j : Nat) (hi : i < R) (hj : j < C) :
+    get2 (setBlock next b vals) i j
+      = if InBlk b i j then (vals[i - b.r0]!)[j - b.c0]! else get2 next i j := by
+  have hl : i < next.length := by rw [hg.1]; exact hi
+  have hr : (next[i]!).length = C := rect_row hg hi
+  simp only [get2]
+  rw [getElem!_pos _ i (by simp [setBlock, hl])]
+  simp only [setBlock, List.getElem_map, List.getElem_range]
+  by_cases h1 : b.r0 ≤ i ∧ i < b.r0 + b.h
+  · rw [if_pos h1]
+    rw [getElem!_pos _ j (by rw [List.length_map, List.length_range, hr]; exact hj)]
+    simp only [List.getElem_map, List.getElem_range]
+    by_cases h2 : b.c0 ≤ j ∧ j < b.c0 + b.w
+    · rw [if_pos h2, if_pos (show InBlk b i j from ⟨h1.1, h1.2, h2.1, h2.2⟩)]
+    · rw [if_neg h2, if_neg (fun (h : InBlk b i j) => h2 ⟨h.2.2.1, h.2.2.2⟩)]
+  · rw [if_neg h1, if_neg (fun (h : InBlk b i j) => h1 ⟨h.1, h.2.1⟩)]
+
+theorem getBlock_eq [Inhabited α] (next : Grid α) (b : Blk) :
+    getBlock next b = (List.range b.h).map fun i => (List.range b.w).map fun j =>
+      get2 next (b.r0 + i) (b.c0 + j) := rfl
+
+/-! ## Index lists and gathered sub-windows -/
+
+theorem axisIdx_len (n start len r : Nat) : (axisIdx n start len r).length = len + 2 * r := by
+  simp [axisIdx]
+
+/-- The `2r+1` indices at offset `a` of a block's index list are the index list of the single cell. -/
+theorem axisIdx_drop_take (n start len r a : Nat) (ha : a < len) :
+    ((axisIdx n start len r).drop a).take (2 * r + 1) = axisIdx n (start + a) 1 r := by
+  apply List.ext_getElem
+  · simp [axisIdx]; omega
+  · intro k h1 h2
+    simp only [axisIdx, List.getElem_take, List.getElem_drop, List.getElem_map, List.getElem_range]
+    have e : ((start : Int) - (r : Int) + ((a + k : Nat) : Int))
+        = (((start + a : Nat) : Int) - (r : Int) + (k : Int)) := by omega
+    rw [e]
+
+/-- The `(2r+1)²` sub-window of a key at offset `(a, b)`. -/
+def subWin (r : Nat) (key : Grid α) (a b : Nat) : Grid α :=
+  ((key.drop a).take (2 * r + 1)).map fun row => (row.drop b).take (2 * r + 1)
+
+theorem subWin_ix2 [Inhabited α] (g : Grid α) (rows cols : List Int) (r a b : Nat) :
+    subWin r (ix2 g rows cols) a b
+      = ix2 g ((rows.drop a).take (2 * r + 1)) ((cols.drop b).take (2 * r + 1)) := by
+  simp only [subWin, ix2, ← List.map_drop, ← List.map_take, List.map_map]
+  apply List.map_congr_left
+  intro i _
+  simp [Function.comp, ← List.map_drop, ← List.map_take]
+
+theorem ix2_length [Inhabited α] (g : Grid α) (rows cols : List Int) :
+    (ix2 g rows cols).length = rows.length := by simp [ix2]
+
+theorem ix2_gridCols [Inhabited α] (g : Grid α) (rows cols : List Int) (h : 0 < rows.length) :
+    gridCols (ix2 g rows cols) = cols.length := by
+  cases rows with
+  | nil => simp at h
+  | cons i rest => simp [gridCols, ix2]
+
+/-- **Key lemma**: the sub-window of a block key at offset `(a, b')` is the cell's own block. -/
+theorem subWin_blockKey [Inhabited α] (g : Grid α) (r : Nat) (b : Blk) (a b' : Nat) (ha : a < b.h)
+    (hb : b' < b.w) :
+    subWin r (blockKey g r b) a b' = blockAt g r (b.r0 + a) (b.c0 + b') := by
+  unfold blockKey blockAt
+  rw [subWin_ix2, axisIdx_drop_take _ _ _ _ _ ha, axisIdx_drop_take _ _ _ _ _ hb]
+
+/-! ## Cells in row-major order, quadrants -/
+
+theorem mem_cellsRowMajor (R C : Nat) (c : Nat × Nat) : c ∈ cellsRowMajor R C ↔ c.1 < R ∧ c.2 < C := by
+  obtain ⟨i, j⟩ := c
+  simp only [cellsRowMajor, List.mem_flatMap, List.mem_range, List.mem_map, Prod.mk.injEq]
+  constructor
+  · rintro ⟨a, ha, b, hb, rfl, rfl⟩; exact ⟨ha, hb⟩
+  · rintro ⟨h1, h2⟩; exact ⟨i, h1, j, h2, rfl, rfl⟩
+
+theorem quadrants_inBlk (b : Blk) (i j : Nat) : InBlk b i j ↔ ∃ q ∈ quadrants b, InBlk q i j := by
+  simp only [quadrants, InBlk, List.mem_cons, List.not_mem_nil, or_false, exists_eq_or_imp,
+    exists_eq_left]
+  omega
+
+theorem quadrants_lt (b : Blk) (hb : b.h > 1 ∨ b.w > 1) : ∀ q ∈ quadrants b, q.h + q.w < b.h + b.w := by
+  intro q hq
+  simp only [quadrants, List.mem_cons, List.not_mem_nil, or_false] at hq
+  rcases hq with rfl | rfl | rfl | rfl <;> simp only <;> omega
+
+theorem quadrants_inside (b : Blk) (R C : Nat) (h1 : b.r0 + b.h ≤ R) (h2 : b.c0 + b.w ≤ C) :
+    ∀ q ∈ quadrants b, q.r0 + q.h ≤ R ∧ q.c0 + q.w ≤ C := by
+  intro q hq
+  simp only [quadrants, List.mem_cons, List.not_mem_nil, or_false] at hq
+  rcases hq with rfl | rfl | rfl | rfl <;> simp only <;> omega
+
+theorem lookup_mem {κ β : Type} [BEq κ] [LawfulBEq κ] (tbl : List (κ × β)) (n : κ) (v : β)
+    (h : tbl.lookup n = some v) : (n, v) ∈ tbl := by
+  obtain ⟨l1, l2, rfl, _⟩ := List.lookup_eq_some_iff.mp h
+  simp
+
+/-- The mask argument of `applyMask` used by the model. -/
+def maskOf (r : Nat) (vn : Bool) : Option (List (List Bool)) := if vn then some (vonNeumannMask r) else none
+
+/-- What a block key determines: the rule value of every masked `(2r+1)²` sub-window. -/
+def blockVals (f : Nbhd2 α → α) (r : Nat) (vn : Bool) (key : Grid α) : Grid α :=
+  (List.range (key.length - 2 * r)).map fun a =>
+    (List.range (gridCols key - 2 * r)).map fun b => f (applyMask (subWin r key a b) (maskOf r vn))
+
+/-- For a block inside the grid the key determines exactly the pure values of the block's cells. -/
+theorem blockVals_blockKey [Inhabited α] (f : Nbhd2 α → α) (g : Grid α) (R C r : Nat) (vn : Bool)
+    (hg : Spec.Rect g R C) (hR : r ≤ R) (hC : r ≤ C) (b : Blk) (hh : 0 < b.h)
+    (h1 : b.r0 + b.h ≤ R) (h2 : b.c0 + b.w ≤ C) :
+    blockVals f r vn (blockKey g r b)
+      = (List.range b.h).map fun a => (List.range b.w).map fun b' =>
+          f (Spec.nbhd g R C r vn (b.r0 + a) (b.c0 + b')) := by
+  have hl : (blockKey g r b).length = b.h + 2 * r := by
+    unfold blockKey; rw [ix2_length, axisIdx_len]
+  have hc : gridCols (blockKey g r b) = b.w + 2 * r := by
+    unfold blockKey; rw [ix2_gridCols _ _ _ (by rw [axisIdx_len]; omega), axisIdx_len]
+  unfold blockVals
+  rw [hl, hc, Nat.add_sub_cancel, Nat.add_sub_cancel]
+  apply List.map_congr_left
+  intro a ha
+  apply List.map_congr_left
+  intro b' hb'
+  rw [List.mem_range] at ha hb'
+  rw [subWin_blockKey g r b a b' ha hb']
+  have : applyMask (blockAt g r (b.r0 + a) (b.c0 + b')) (maskOf r vn)
+      = getNeighbourhood g r vn (b.r0 + a) (b.c0 + b') := rfl
+  rw [this, C02.getNeighbourhood_spec g R C r vn _ _ hg hR hC (by omega) (by omega)]
+
+end Helpers
+end Memo2D
+
+open Memo2D
+
+section Values
+variable {σ α : Type}
+
+/-! ## Plain and memoised sweeps -/
+
+def TableOK2 (f : Nbhd2 α → α) (tbl : MemoTable2 α) : Prop := ∀ n v, (n, v) ∈ tbl → v = f n
+
+theorem TableOK2_nil (f : Nbhd2 α → α) : TableOK2 f ([] : MemoTable2 α) := by
+  intro n v h; cases h
+
+theorem plainSweep_ok [Inhabited α] (rule : Rule2 σ α) (f : Nbhd2 α → α) (hp : PureVal2 rule f)
+    (g : Grid α) (R C r : Nat) (vn : Bool) (t : Nat) (hg : Spec.Rect g R C) (hR : r ≤ R) (hC : r ≤ C) :
+    ∀ (cells : List (Nat × Nat)) (next : Grid α) (s : σ), (∀ c ∈ cells, c.1 < R ∧ c.2 < C) →
+      Spec.Rect next R C →
+      Spec.Rect (plainSweep rule g r vn t cells next s).1 R C ∧
+      (∀ i j, i < R → j < C → (i, j) ∈ cells →
+        get2 (plainSweep rule g r vn t cells next s).1 i j = f (Spec.nbhd g R C r vn i j)) ∧
+      (∀ i j, i < R → j < C → (i, j) ∉ cells →
+        get2 (plainSweep rule g r vn t cells next s).1 i j = get2 next i j) := by
+  intro cells
+  induction cells with
+  | nil => intro next s _ hn; exact ⟨hn, (by intro i j _ _ h; cases h), (by intro i j _ _ _; rfl)⟩
+  | cons c rest ih =>
+    intro next s hb hn
+    obtain ⟨ci, cj⟩ := c
+    have hc := hb (ci, cj) (by simp)
+    simp only [plainSweep]
+    have hv : (rule s (getNeighbourhood g r vn ci cj) (ci, cj) t).1 = f (Spec.nbhd g R C r vn ci cj) := by
+      rw [hp, C02.getNeighbourhood_spec g R C r vn ci cj hg hR hC hc.1 hc.2]
+    obtain ⟨a1, a2, a3⟩ := ih (setCell next ci cj (rule s (getNeighbourhood g r vn ci cj) (ci, cj) t).1)
+      (rule s (getNeighbourhood g r vn ci cj) (ci, cj) t).2
+      (fun c hc => hb c (List.mem_cons_of_mem _ hc)) (rect_setCell hn _ _ _)
+    refine ⟨a1, ?_, ?_⟩
+    · intro i j hi hj hm
+      by_cases hr : (i, j) ∈ rest
+      · exact a2 i j hi hj hr
+      · rw [a3 i j hi hj hr, get2_setCell hn _ _ _ _ _ hi hj]
+        have : (i, j) = (ci, cj) := by
+          rcases List.mem_cons.mp hm with h | h
+          · exact h
+          · exact absurd h hr
+        simp only [Prod.mk.injEq] at this
+        rw [if_pos this, hv, this.1, this.2]
+    · intro i j hi hj hm
+      have h1 : (i, j) ∉ rest := fun h => hm (List.mem_cons_of_mem _ h)
+      have h2 : ¬ (i = ci ∧ j = cj) := fun h => hm (by rw [h.1, h.2]; simp)
+      rw [a3 i j hi hj h1, get2_setCell hn _ _ _ _ _ hi hj, if_neg h2]
+
+theorem memoSweep_ok [DecidableEq α] [Inhabited α] (rule : Rule2 σ α) (f : Nbhd2 α → α)
+    (hp : PureVal2 rule f) (g : Grid α) (R C r : Nat) (vn : Bool) (t : Nat) (hg : Spec.Rect g R C)
+    (hR : r ≤ R) (hC : r ≤ C) :
+    ∀ (cells : List (Nat × Nat)) (next : Grid α) (tbl : MemoTable2 α) (s : σ),
+      (∀ c ∈ cells, c.1 < R ∧ c.2 < C) → Spec.Rect next R C → TableOK2 f tbl →
+      Spec.Rect (memoSweep rule g r vn t cells next tbl s).1 R C ∧
+      TableOK2 f (memoSweep rule g r vn t cells next tbl s).2.1 ∧
+      (∀ i j, i < R → j < C → (i, j) ∈ cells →
+        get2 (memoSweep rule g r vn t cells next tbl s).1 i j = f (Spec.nbhd g R C r vn i j)) ∧
+      (∀ i j, i < R → j < C → (i, j) ∉ cells →
+        get2 (memoSweep rule g r vn t cells next tbl s).1 i j = get2 next i j) := by
+  intro cells
+  induction cells with
+  | nil =>
+    intro next tbl s _ hn ht
+    exact ⟨hn, ht, (by intro i j _ _ h; cases h), (by intro i j _ _ _; rfl)⟩
+  | cons c rest ih =>
+    intro next tbl s hb hn ht
+    obtain ⟨ci, cj⟩ := c
+    have hc := hb (ci, cj) (by simp)
+    have hnb : getNeighbourhood g r vn ci cj = Spec.nbhd g R C r vn ci cj :=
+      C02.getNeighbourhood_spec g R C r vn ci cj hg hR hC hc.1 hc.2
+    -- both branches continue with a cell value `v = f (nbhd …)` and a good table
+    have step : ∀ (v : α) (tbl' : MemoTable2 α) (s' : σ), v = f (Spec.nbhd g R C r vn ci cj) →
+        TableOK2 f tbl' →
+        Spec.Rect (memoSweep rule g r vn t rest (setCell next ci cj v) tbl' s').1 R C ∧
+        TableOK2 f (memoSweep rule g r vn t rest (setCell next ci cj v) tbl' s').2.1 ∧
+        (∀ i j, i < R → j < C → (i, j) ∈ (ci, cj) :: rest →
+          get2 (memoSweep rule g r vn t rest (setCell next ci cj v) tbl' s').1 i j
+            = f (Spec.nbhd g R C r vn i j)) ∧
+        (∀ i j, i < R → j < C → (i, j) ∉ (ci, cj) :: rest →
+          get2 (memoSweep rule g r vn t rest (setCell next ci cj v) tbl' s').1 i j = get2 next i j) := by
+      intro v tbl' s' hv ht'
+      obtain ⟨a1, a0, a2, a3⟩ := ih (setCell next ci cj v) tbl' s'
+        (fun c hc => hb c (List.mem_cons_of_mem _ hc)) (rect_setCell hn _ _ _) ht'
+      refine ⟨a1, a0, ?_, ?_⟩
+      · intro i j hi hj hm
+        by_cases hr : (i, j) ∈ rest
+        · exact a2 i j hi hj hr
+        · rw [a3 i j hi hj hr, get2_setCell hn _ _ _ _ _ hi hj]
+          have : (i, j) = (ci, cj) := by
+            rcases List.mem_cons.mp hm with h | h
+            · exact h
+            · exact absurd h hr
+          simp only [Prod.mk.injEq] at this
+          rw [if_pos this, hv, this.1, this.2]
+      · intro i j hi hj hm
+        have h1 : (i, j) ∉ rest := fun h => hm (List.mem_cons_of_mem _ h)
+        have h2 : ¬ (i = ci ∧ j = cj) := fun h => hm (by rw [h.1, h.2]; simp)
+        rw [a3 i j hi hj h1, get2_setCell hn _ _ _ _ _ hi hj, if_neg h2]
+    rw [memoSweep]
+    simp only
+    split
+    · rename_i v hv
+      have := ht _ _ (lookup_mem _ _ _ hv)
+      rw [hnb] at this
+      exact step v tbl s this ht
+    · refine step _ _ _ (by rw [hp, hnb]) ?_
+      intro n' v' hm
+      simp only [List.mem_cons, Prod.mk.injEq] at hm
+      rcases hm with ⟨rfl, rfl⟩ | hm
+      · exact hp _ _ _ _
+      · exact ht _ _ hm
+
+/-! ## Recursive (quadtree) memoiser -/
+
+def CacheOK2 (f : Nbhd2 α → α) (r : Nat) (vn : Bool) (cache : RecCache2 α) : Prop :=
+  ∀ key vals, (key, vals) ∈ cache → vals = blockVals f r vn key
+
+theorem CacheOK2_nil (f : Nbhd2 α → α) (r : Nat) (vn : Bool) : CacheOK2 f r vn ([] : RecCache2 α) := by
+  intro k v h; cases h
+
+/-- `st'` is `st` after block `b` has been brought up to date: the grid stays rectangular, the cache
+    stays sound, the cells of `b` hold their pure next values, all other cells are untouched. -/
+def BlkDone [Inhabited α] (f : Nbhd2 α → α) (g : Grid α) (R C r : Nat) (vn : Bool) (inb : Nat → Nat → Prop)
+    (st st' : RecSt2 σ α) : Prop :=
+  Spec.Rect st'.next R C ∧ CacheOK2 f r vn st'.cache ∧
+  (∀ i j, i < R → j < C → inb i j → get2 st'.next i j = f (Spec.nbhd g R C r vn i j)) ∧
+  (∀ i j, i < R → j < C → ¬ inb i j → get2 st'.next i j = get2 st.next i j)
+
+theorem foldl_blocks [Inhabited α] (f : Nbhd2 α → α) (g : Grid α) (R C r : Nat) (vn : Bool)
+    (F : Blk → RecSt2 σ α → RecSt2 σ α) :
+    ∀ (qs : List Blk),
+      (∀ q ∈ qs, ∀ st : RecSt2 σ α, Spec.Rect st.next R C → CacheOK2 f r vn st.cache →
+        BlkDone f g R C r vn (InBlk q) st (F q st)) →
+      ∀ st : RecSt2 σ α, Spec.Rect st.next R C → CacheOK2 f r vn st.cache →
+        BlkDone f g R C r vn (fun i j => ∃ q ∈ qs, InBlk q i j) st (qs.foldl (fun acc q => F q acc) st) := by
+  intro qs
+  induction qs with
+  | nil =>
+    intro _ st h1 h2
+    refine ⟨h1, h2, ?_, ?_⟩
+    · rintro i j _ _ ⟨q, hq, _⟩; cases hq
+    · intro i j _ _ _; rfl
+  | cons q rest ih =>
+    intro H st h1 h2
+    obtain ⟨a1, a2, a3, a4⟩ := H q (by simp) st h1 h2
+    obtain ⟨b1, b2, b3, b4⟩ := ih (fun q' hq' => H q' (List.mem_cons_of_mem _ hq')) (F q st) a1 a2
+    rw [List.foldl_cons]
+    refine ⟨b1, b2, ?_, ?_⟩
+    · rintro i j hi hj ⟨q', hq', hin⟩
+      by_cases hr : ∃ q ∈ rest, InBlk q i j
+      · exact b3 i j hi hj hr
+      · rw [b4 i j hi hj hr]
+        rcases List.mem_cons.mp hq' with rfl | h
+        · exact a3 i j hi hj hin
+        · exact absurd ⟨q', h, hin⟩ hr
+    · intro i j hi hj hn
+      have h1 : ¬ ∃ q ∈ rest, InBlk q i j := by
+        rintro ⟨q', hq', hin⟩; exact hn ⟨q', List.mem_cons_of_mem _ hq', hin⟩
+      have h2 : ¬ InBlk q i j := fun h => hn ⟨q, by simp, h⟩
+      rw [b4 i j hi hj h1, a4 i j hi hj h2]
+
+theorem BlkDone_congr [Inhabited α] (f : Nbhd2 α → α) (g : Grid α) (R C r : Nat) (vn : Bool)
+    (p q : Nat → Nat → Prop) (hpq : ∀ i j, p i j ↔ q i j) (st st' : RecSt2 σ α)
+    (h : BlkDone f g R C r vn p st st') : BlkDone f g R C r vn q st st' := by
+  obtain ⟨a1, a2, a3, a4⟩ := h
+  exact ⟨a1, a2, fun i j hi hj hq => a3 i j hi hj ((hpq i j).mpr hq),
+    fun i j hi hj hq => a4 i j hi hj (fun hp' => hq ((hpq i j).mp hp'))⟩
+
+/-- Recording a finished block in the cache keeps everything. -/
+theorem BlkDone_record [Inhabited α] (f : Nbhd2 α → α) (g : Grid α) (R C r : Nat) (vn : Bool)
+    (hg : Spec.Rect g R C) (hR : r ≤ R) (hC : r ≤ C) (b : Blk) (hh : 0 < b.h)
+    (h1 : b.r0 + b.h ≤ R) (h2 : b.c0 + b.w ≤ C) (st st' : RecSt2 σ α)
+    (h : BlkDone f g R C r vn (InBlk b) st st') :
+    BlkDone f g R C r vn (InBlk b) st
+      { st' with cache := (blockKey g r b, getBlock st'.next b) :: st'.cache } := by
+  obtain ⟨a1, a2, a3, a4⟩ := h
+  refine ⟨a1, ?_, a3, a4⟩
+  intro key vals hm
+  simp only [List.mem_cons, Prod.mk.injEq] at hm
+  rcases hm with ⟨rfl, rfl⟩ | hm
+  · rw [blockVals_blockKey f g R C r vn hg hR hC b hh h1 h2, getBlock_eq]
+    apply List.map_congr_left
+    intro a ha
+    apply List.map_congr_left
+    intro b' hb'
+    rw [List.mem_range] at ha hb'
+    exact a3 _ _ (by omega) (by omega) ⟨by omega, by omega, by omega, by omega⟩
+  · exact a2 _ _ hm
+
+theorem updateRec2_correct [DecidableEq α] [Inhabited α] (rule : Rule2 σ α) (f : Nbhd2 α → α)
+    (hp : PureVal2 rule f) (g : Grid α) (R C r : Nat) (vn : Bool) (t : Nat) (hg : Spec.Rect g R C)
+    (hR : r ≤ R) (hC : r ≤ C) :
+    ∀ (fuel : Nat) (b : Blk) (st : RecSt2 σ α), b.h + b.w < fuel → b.r0 + b.h ≤ R → b.c0 + b.w ≤ C →
+      Spec.Rect st.next R C → CacheOK2 f r vn st.cache →
+      BlkDone f g R C r vn (InBlk b) st (updateRec2 rule r vn g t fuel b st) := by
+  intro fuel
+  induction fuel with
+  | zero => intro b st h; omega
+  | succ fuel ih =>
+    intro b st hfuel hb1 hb2 hn hc
+    rw [updateRec2]
+    by_cases hempty : b.h = 0 ∨ b.w = 0
+    · rw [if_pos hempty]
+      refine ⟨hn, hc, ?_, fun _ _ _ _ _ => rfl⟩
+      intro i j _ _ hin
+      unfold InBlk at hin; omega
+    · rw [if_neg hempty]
+      have hh : 0 < b.h := by omega
+      have hw : 0 < b.w := by omega
+      simp only
+      split
+      · -- cache hit
+        rename_i vals hlk
+        have hv := hc _ _ (lookup_mem _ _ _ hlk)
+        rw [blockVals_blockKey f g R C r vn hg hR hC b hh hb1 hb2] at hv
+        refine ⟨rect_setBlock hn _ _, hc, ?_, ?_⟩
+        · intro i j hi hj hin
+          simp only
+          rw [get2_setBlock hn _ _ _ _ hi hj, if_pos hin, hv]
+          obtain ⟨i1, i2, i3, i4⟩ := hin
+          simp only [List.getElem!_eq_getElem?_getD, List.getElem?_map]
+          rw [List.getElem?_range (by omega)]
+          simp only [Option.map_some, Option.getD_some, List.getElem?_map]
+          rw [List.getElem?_range (by omega)]
+          simp only [Option.map_some, Option.getD_some]
+          congr 2 <;> omega
+        · intro i j hi hj hin
+          simp only
+          rw [get2_setBlock hn _ _ _ _ hi hj, if_neg hin]
+      · -- miss
+        by_cases hbig : b.h > 1 ∨ b.w > 1
+        · simp only [hbig, if_true]
+          apply BlkDone_record f g R C r vn hg hR hC b hh hb1 hb2
+          apply BlkDone_congr f g R C r vn _ _ (fun i j => (quadrants_inBlk b i j).symm)
+          apply foldl_blocks f g R C r vn (fun q acc => updateRec2 rule r vn g t fuel q acc)
+            (quadrants b) _ st hn hc
+          intro q hq st' hn' hc'
+          have hlt := quadrants_lt b hbig q hq
+          obtain ⟨hi1, hi2⟩ := quadrants_inside b R C hb1 hb2 q hq
+          exact ih q st' (by omega) hi1 hi2 hn' hc'
+        · simp only [hbig, if_false]
+          obtain ⟨r0, h, c0, w⟩ := b
+          simp only at hh hw hbig hb1 hb2
+          have e1 : h = 1 := by omega
+          have e2 : w = 1 := by omega
+          subst e1 e2
+          have hnb := C02.getNeighbourhood_spec g R C r vn r0 c0 hg hR hC (by omega) (by omega)
+          refine BlkDone_record f g R C r vn hg hR hC ⟨r0, 1, c0, 1⟩ hh hb1 hb2 st
+            ⟨setCell st.next r0 c0 (rule st.s (getNeighbourhood g r vn r0 c0) (r0, c0) t).1, st.cache,
+              (rule st.s (getNeighbourhood g r vn r0 c0) (r0, c0) t).2⟩ ?_
+          rw [hnb]
+          refine ⟨rect_setCell hn _ _ _, hc, ?_, ?_⟩
+          · intro i j hi hj hin
+            unfold InBlk at hin
+            simp only at hin
+            have e1 : i = r0 := by omega
+            have e2 : j = c0 := by omega
+            subst e1 e2
+            simp only
+            rw [get2_setCell hn _ _ _ _ _ hi hj, if_pos ⟨rfl, rfl⟩, hp]
+          · intro i j hi hj hin
+            simp only
+            rw [get2_setCell hn _ _ _ _ _ hi hj, if_neg]
+            intro h; apply hin; unfold InBlk; simp only; omega
+
+theorem eq_pureStep2 [Inhabited α] (f : Nbhd2 α → α) (R C r : Nat) (vn : Bool) (g next : Grid α)
+    (hn : Spec.Rect next R C)
+    (hv : ∀ i j, i < R → j < C → get2 next i j = f (Spec.nbhd g R C r vn i j)) :
+    next = Spec.pureStep2 f R C r vn g := by
+  apply rect_ext hn (rect_pureStep2 f R C r vn g)
+  intro i j hi hj
+  rw [hv i j hi hj, get2_pureStep2 f R C r vn g i j hi hj]
+
+theorem stepRec2_correct [DecidableEq α] [Inhabited α] (rule : Rule2 σ α) (f : Nbhd2 α → α)
+    (hp : PureVal2 rule f) (g : Grid α) (R C r : Nat) (vn : Bool) (t : Nat) (hg : Spec.Rect g R C)
+    (hR1 : 1 ≤ R) (hR : r ≤ R) (hC : r ≤ C) (cache : RecCache2 α) (s : σ) (hc : CacheOK2 f r vn cache) :
+    (stepRec2 rule r vn g t cache s).next = Spec.pureStep2 f R C r vn g ∧
+    CacheOK2 f r vn (stepRec2 rule r vn g t cache s).cache := by
+  unfold stepRec2
+  simp only
+  rw [hg.1, rect_gridCols hg hR1]
+  have hfold := foldl_blocks f g R C r vn (fun q acc => updateRec2 rule r vn g t (R + C + 1) q acc)
+    (quadrants ⟨0, R, 0, C⟩)
+    (by
+      intro q hq st' hn' hc'
+      obtain ⟨hi1, hi2⟩ := quadrants_inside ⟨0, R, 0, C⟩ R C (by simp) (by simp) q hq
+      exact updateRec2_correct rule f hp g R C r vn t hg hR hC (R + C + 1) q st' (by omega) hi1 hi2 hn' hc')
+    ⟨zeroGrid R C, cache, s⟩ (rect_zeroGrid R C) hc
+  obtain ⟨a1, a2, a3, _⟩ := hfold
+  refine ⟨eq_pureStep2 f R C r vn g _ a1 ?_, a2⟩
+  intro i j hi hj
+  apply a3 i j hi hj
+  apply (quadrants_inBlk ⟨0, R, 0, C⟩ i j).mp
+  unfold InBlk; simp only; omega
+
+/-! ## One step / many steps in any supported mode -/
+
+def CachesOK2 (f : Nbhd2 α → α) (r : Nat) (vn : Bool) (cs : Caches2 α) : Prop :=
+  TableOK2 f cs.tbl ∧ CacheOK2 f r vn cs.rc
+
+theorem CachesOK2_empty (f : Nbhd2 α → α) (r : Nat) (vn : Bool) :
+    CachesOK2 f r vn (Caches2.empty : Caches2 α) :=
+  ⟨TableOK2_nil f, CacheOK2_nil f r vn⟩
+
+theorem step2_pure [DecidableEq α] [Inhabited α] (rule : Rule2 σ α) (f : Nbhd2 α → α)
+    (hp : PureVal2 rule f) (mode : Mode) (hm : mode ≠ .bad) (g : Grid α) (R C r : Nat) (vn : Bool)
+    (t : Nat) (cs : Caches2 α) (s : σ) (hg : Spec.Rect g R C) (hR1 : 1 ≤ R) (hR : r ≤ R) (hC : r ≤ C)
+    (hc : CachesOK2 f r vn cs) :
+    (step2 mode rule r vn g t cs s).1 = Spec.pureStep2 f R C r vn g ∧
+    CachesOK2 f r vn (step2 mode rule r vn g t cs s).2.1 := by
+  have hcells : ∀ c ∈ cellsRowMajor R C, c.1 < R ∧ c.2 < C := fun c hc => (mem_cellsRowMajor R C c).mp hc
+  cases mode with
+  | bad => exact absurd rfl hm
+  | plain =>
+    simp only [step2]
+    rw [hg.1, rect_gridCols hg hR1]
+    obtain ⟨a1, a2, _⟩ := plainSweep_ok rule f hp g R C r vn t hg hR hC (cellsRowMajor R C)
+      (zeroGrid R C) s hcells (rect_zeroGrid R C)
+    refine ⟨eq_pureStep2 f R C r vn g _ a1 ?_, hc⟩
+    intro i j hi hj
+    exact a2 i j hi hj ((mem_cellsRowMajor R C (i, j)).mpr ⟨hi, hj⟩)
+  | memo =>
+    simp only [step2]
+    rw [hg.1, rect_gridCols hg hR1]
+    obtain ⟨a1, a0, a2, _⟩ := memoSweep_ok rule f hp g R C r vn t hg hR hC (cellsRowMajor R C)
+      (zeroGrid R C) cs.tbl s hcells (rect_zeroGrid R C) hc.1
+    refine ⟨eq_pureStep2 f R C r vn g _ a1 ?_, a0, hc.2⟩
+    intro i j hi hj
+    exact a2 i j hi hj ((mem_cellsRowMajor R C (i, j)).mpr ⟨hi, hj⟩)
+  | recursive =>
+    simp only [step2]
+    obtain ⟨m1, m2⟩ := stepRec2_correct rule f hp g R C r vn t hg hR1 hR hC cs.rc s hc.2
+    exact ⟨m1, hc.1, m2⟩
+
+theorem fixedLoop2_pure [DecidableEq α] [Inhabited α] (rule : Rule2 σ α) (f : Nbhd2 α → α)
+    (hp : PureVal2 rule f) (mode : Mode) (hm : mode ≠ .bad) (R C r : Nat) (vn : Bool) (hR1 : 1 ≤ R)
+    (hR : r ≤ R) (hC : r ≤ C) :
+    ∀ (k t : Nat) (g : Grid α) (cs : Caches2 α) (s : σ), Spec.Rect g R C → CachesOK2 f r vn cs →
+      (fixedLoop2 mode rule r vn k t g cs s).1 = Spec.pureRun2 f R C r vn k g := by
+  intro k
+  induction k with
+  | zero => intro t g cs s _ _; rfl
+  | succ k ih =>
+    intro t g cs s hg hc
+    obtain ⟨e1, e2⟩ := step2_pure rule f hp mode hm g R C r vn t cs s hg hR1 hR hC hc
+    simp only [fixedLoop2, Spec.pureRun2]
+    rw [ih (t + 1) _ _ _ (by rw [e1]; exact rect_pureStep2 f R C r vn g) e2, e1]
+
+theorem evolve2dFixed_eq [DecidableEq α] [Inhabited α] (rule : Rule2 σ α) (mode : Mode)
+    (hm : mode ≠ .bad) (hist : List (Grid α)) (init : Grid α) (hlast : hist.getLast? = some init)
+    (T : Nat) (hT : 1 ≤ T) (r : Nat) (nb : NbType) (hnb : nb ≠ .unknown) (s : σ) :
+    evolve2dFixed hist T rule r nb mode s
+      = .ok (hist ++ (fixedLoop2 mode rule r (decide (nb = .vonNeumann)) (T - 1) 1 init Caches2.empty s).1,
+             (fixedLoop2 mode rule r (decide (nb = .vonNeumann)) (T - 1) 1 init Caches2.empty s).2.2) := by
+  unfold evolve2dFixed
+  rw [hlast]
+  simp only
+  rw [if_neg (by omega), if_neg (by simp [hnb]), if_neg (by simp [hm])]
+
+/-- Lock step of the dynamic loop in a memoised mode and in plain mode (grids only). -/
+theorem dynLoop2_mode_indep [DecidableEq α] [Inhabited α] (rule : Rule2 σ α) (f : Nbhd2 α → α)
+    (hp : PureVal2 rule f) (mode : Mode) (hm : mode ≠ .bad) (R C r : Nat) (nb : NbType)
+    (hnb : nb ≠ .unknown) (hR1 : 1 ≤ R) (hR : r ≤ R) (hC : r ≤ C) (pred : List (Grid α) → Nat → Bool) :
+    ∀ (fuel t : Nat) (acc : List (Grid α)) (g : Grid α) (cs cs' : Caches2 α) (s s' : σ),
+      Spec.Rect g R C → CachesOK2 f r (decide (nb = .vonNeumann)) cs →
+      (dynLoop2 mode rule r nb pred fuel t acc g cs s).map (·.map Prod.fst)
+        = (dynLoop2 .plain rule r nb pred fuel t acc g cs' s').map (·.map Prod.fst) := by
+  intro fuel
+  induction fuel with
+  | zero => intros; rfl
+  | succ fuel ih =>
+    intro t acc g cs cs' s s' hg hc
+    simp only [dynLoop2]
+    by_cases hpred : pred acc t = true
+    · rw [if_pos hpred, if_pos hpred, if_neg hnb, if_neg hnb, if_neg hm, if_neg (by decide)]
+      obtain ⟨e1, e2⟩ := step2_pure rule f hp mode hm g R C r (decide (nb = .vonNeumann)) t cs s hg hR1
+        hR hC hc
+      obtain ⟨p1, _⟩ := step2_pure rule f hp .plain (by decide) g R C r (decide (nb = .vonNeumann)) t
+        Caches2.empty s' hg hR1 hR hC (CachesOK2_empty f r _)
+      have p1' : (step2 .plain rule r (decide (nb = .vonNeumann)) g t cs' s').1
+          = Spec.pureStep2 f R C r (decide (nb = .vonNeumann)) g := by
+        rw [← p1]; simp only [step2]
+      rw [p1']
+      have := ih (t + 1) (acc ++ [(step2 mode rule r (decide (nb = .vonNeumann)) g t cs s).1])
+        (step2 mode rule r (decide (nb = .vonNeumann)) g t cs s).1
+        (step2 mode rule r (decide (nb = .vonNeumann)) g t cs s).2.1
+        (step2 .plain rule r (decide (nb = .vonNeumann)) g t cs' s').2.1
+        (step2 mode rule r (decide (nb = .vonNeumann)) g t cs s).2.2
+        (step2 .plain rule r (decide (nb = .vonNeumann)) g t cs' s').2.2
+        (by rw [e1]; exact rect_pureStep2 f R C r _ g) e2
+      rw [this, e1]
+    · rw [if_neg hpred, if_neg hpred]; rfl
+
+end Values
 
 end Cpl
